@@ -470,3 +470,46 @@ func TestReplay_AliasesShareOneInstance(t *testing.T) {
 		t.Errorf("REPLAY-CONFIRMED collection.addService#post[outputs_of_one_registration_are_linked]: instance value registered under two aliases was closed %d times, want 1", v.closed)
 	}
 }
+
+// scope.createInstance#post[removed_outputs_are_not_stored]: removing one output of a multi-output registration and registering
+// the type again: the new registration is the one that is built and resolved, the removed one leaves nothing behind.
+func TestReplay_RemovedOutputStaysRemoved(t *testing.T) {
+	c := NewCollection()
+	oldRuns, newRuns := 0, 0
+	if err := c.AddSingleton(func() (*rbOutA, *rbOutB) { oldRuns++; return &rbOutA{1}, &rbOutB{1} }); err != nil {
+		t.Fatal(err)
+	}
+	c.Remove(reflect.TypeOf((*rbOutA)(nil)))
+	if err := c.AddSingleton(func() *rbOutA { newRuns++; return &rbOutA{2} }); err != nil {
+		t.Fatal(err)
+	}
+	p, err := c.Build()
+	if err != nil {
+		t.Fatalf("REPLAY-CONFIRMED scope.createInstance#post[removed_outputs_are_not_stored]: Build fails after removing one output of a two-output registration: %v", err)
+	}
+	defer p.Close()
+	a, err := Resolve[*rbOutA](p)
+	if err != nil || a == nil || a.n != 2 || newRuns != 1 {
+		t.Errorf("REPLAY-CONFIRMED scope.createInstance#post[removed_outputs_are_not_stored]: *rbOutA resolves to %v (err %v), the new constructor ran %d times: the removed output of the old registration is still what is built", a, err, newRuns)
+	}
+	if b, err := Resolve[*rbOutB](p); err != nil || b == nil || b.n != 1 || oldRuns != 1 {
+		t.Errorf("REPLAY-CONFIRMED scope.createInstance#post[removed_outputs_are_not_stored]: remaining output *rbOutB: %v (err %v), old constructor ran %d times", b, err, oldRuns)
+	}
+	// removing an output without replacing it
+	c2 := NewCollection()
+	if err := c2.AddSingleton(func() (*rbOutA, *rbOutB) { return &rbOutA{1}, &rbOutB{1} }); err != nil {
+		t.Fatal(err)
+	}
+	c2.Remove(reflect.TypeOf((*rbOutA)(nil)))
+	p2, err := c2.Build()
+	if err != nil {
+		t.Fatalf("REPLAY-CONFIRMED scope.createInstance#post[removed_outputs_are_not_stored]: Build fails after removing one output of a two-output registration: %v", err)
+	}
+	defer p2.Close()
+	if _, err := Resolve[*rbOutA](p2); err == nil {
+		t.Errorf("REPLAY-CONFIRMED scope.createInstance#post[removed_outputs_are_not_stored]: the removed output is still resolvable")
+	}
+	if b, err := Resolve[*rbOutB](p2); err != nil || b == nil {
+		t.Errorf("REPLAY-CONFIRMED scope.createInstance#post[removed_outputs_are_not_stored]: the remaining output is no longer resolvable: %v", err)
+	}
+}
